@@ -37,10 +37,18 @@ class SockWorld:
         self.raise_in_msg_sub = False
         self.raise_in_conn_sub = False
         self.on_connect_hooks = []
+        self.msg_delays = []
         self.sock.subscribe_on_message_received(self._on_msg)
         self.sock.subscribe_on_connection_changed(self._on_conn)
 
     async def _on_msg(self, hdr, msg):
+        if self.msg_delays:
+            # a subscriber that takes its time (records when it has finished)
+            d = self.msg_delays.pop(0)
+            if d:
+                await asyncio.sleep(d)
+            else:
+                await asyncio.sleep(0)
         cur = self.net.current()
         self.msgs.append((cur.id if cur else None, hdr, msg))
         self.log.add("SUB.msg", hdr=repr(hdr), msg=repr(msg))
